@@ -373,6 +373,20 @@ def h_helpers_many(ctx, cfg):
             sv = sv + viab[t][i]
         ctx.prove(ctx.eq(mavg[i] * T, sm), "predict_mean_avg is the exact mean over posterior samples", key="predict_mean_avg is not the mean (many samples)")
         ctx.prove(ctx.eq(vavg[i] * T, sv), "predict_viability_avg is the exact mean over posterior samples", key="predict_viability_avg is not the mean (many samples)")
+    if T <= 70:
+        # a collection that holds fewer samples than it declares: the stacked helpers refuse it, or return rows for the
+        # samples that exist - never a row that belongs to no sample
+        part = core.ThetaHolder(n_thetas=T + 1)
+        for t in range(T):
+            part.add_theta(_StubTheta(np, mean[t], viab[t], 1.0 + t))
+        for name, f in (("predict_viability_all", mm.predict_viability_all), ("predict_mean_all", mm.predict_mean_all)):
+            try:
+                got = f(data, part).tolist()
+            except ValueError:
+                ctx.prove(True, "the stacked helpers refuse a collection with missing samples")
+                continue
+            ctx.prove(len(got) == T, "%s: one row per posterior sample of the collection, no row that belongs to no sample" % name,
+                      key="stacked helper returned a row for a missing sample")
     return T
 
 
